@@ -13,7 +13,9 @@ PROPS_MODULES = ["ShexerModel.Props.C16", "ShexerModel.Props.GenStrNsFilter"]
 DEPS = ["S.check_if_property_belongs_to_namespace_list"]
 replay = base.replay
 
-NS_SETS = [[EX], [EX + 'deep/'], [EX, EX + 'deep/'], [EX + 'deep/', EX], [RDF], [EX + 'dee'], ['http://other.example/']]
+NS_SETS = [[EX], [EX + 'deep/'], [EX, EX + 'deep/'], [EX + 'deep/', EX], [RDF], [EX + 'dee'], ['http://other.example/'],
+           # entries that end in neither '/' nor '#': a plain string prefix of property names filters its direct children, the bare host filters nothing
+           [EX + 'p'], [EX[:-1]], [EX + 'deep/p', EX + 'deep/er/p'], ['http://example.org/p', RDF]]
 
 
 def deep_graph(rng):
